@@ -66,6 +66,16 @@ def check_case(mode, layout, encs, exp, d):
         except Exception as e:
             return 'badtext-wrong-exception/%d' % layout, 'read of %r raised %r' % (BAD[layout], e)
         return 'badtext-accepted/%d' % layout, 'read of %r returned %r' % (BAD[layout], r)
+    if mode in (1, 2) and msgs:
+        # writes that fail (no such directory; a list holding something that is no message)
+        # must leave nothing behind that shows in a later write
+        for bad_path, bad_list, pt in ((os.path.join(d, 'no-such-dir', 'f.syx'), msgs, False),
+                                       (os.path.join(d, 'g.syx'), list(msgs) + [None], True),
+                                       (os.path.join(d, 'no-such-dir', 'h.syx'), msgs, True)):
+            try:
+                mido.write_syx_file(bad_path, bad_list, plaintext=pt)
+            except Exception:
+                pass
     try:
         if mode == 1:
             mido.write_syx_file(path, msgs)
